@@ -120,13 +120,18 @@ def judge(spans, pv, exp, unit=SEC):
     for p in pv:
         i = int(p['eventId'])
         sp = spans[i]
+        end_ns = BASE * SEC + sp['e'] * unit + \
+            (1000 if unit >= SEC else 1) * (i + 1)
         want = {"jobId": f"job{i}", "jobName": f"name{i}",
                 "applicationName": f"app{i}",
-                "timestamp": pv_string(
-                    BASE * SEC + sp['e'] * unit +
-                    (1000 if unit >= SEC else 1) * (i + 1))}
+                "timestamp": pv_string(end_ns)}
         for f, w in want.items():
             if p.get(f) != w:
+                # an end time that is not a whole microsecond may be rounded
+                # either way (C16 leaves rounding versus truncation open)
+                if f == "timestamp" and end_ns % 1000 and \
+                        p.get(f) == pv_string(end_ns + 1000):
+                    continue
                 return ["field", i, f, p.get(f), w]
         prev = p.get('previousEventIds', [])
         if isinstance(prev, str):
